@@ -56,6 +56,11 @@ def err_mantissas(dense):
         ms = ["%d.%02d" % (i // 100, i % 100) for i in range(100, 1000, 7)]
         ms += ["%d.%d5" % (a, b) for a in range(1, 10) for b in range(10)]
     ms += ["9.%03d" % i for i in range(950, 1000)]
+    # a hair below / above the points where the second digit rounds
+    for a in range(1, 10):
+        for b in (0, 3, 4, 8, 9):
+            ms += ["%d.%d49999999" % (a, b), "%d.%d4999999" % (a, b),
+                   "%d.%d50000001" % (a, b)]
     return sorted(set(ms))
 
 
